@@ -504,16 +504,101 @@ def gen_all(repo, out, bindir):
                 clr |= du[x]
             res.append((du[pat], ports, clr))
         return res, arms[-1][1]
-    rd, rd_default = reg_arms('read_byte')
-    wr, wr_default = reg_arms('write_byte')
-    if 'NoDevice' not in rd_default:
-        raise GenError('read_byte: the wildcard arm does not return NoDevice')
+    # a failure here is confined to the theorems that consume these lists (C08 / C09 / C14 register-map ties): the lists
+    # are then written empty, which those theorems cannot be proved from
+    try:
+        rd, rd_default = reg_arms('read_byte')
+        wr, wr_default = reg_arms('write_byte')
+        if 'NoDevice' not in rd_default:
+            raise GenError('read_byte: the wildcard arm does not return NoDevice')
+    except GenError as ex:
+        sys.stderr.write('gen: DUART register map not translated: %s\n' % ex)
+        t += '(* TRANSLATION FAILED: %s *)\n' % str(ex).replace('*)', '* )')
+        rd, wr = [], []
     def arm_list(xs):
         return '[' + '; '.join('(%d, %s, %d)' % (o, zlist(ps), c) for o, ps, c in xs) + ']'
     t += '(* (register offset, channels named in the arm, interrupt-status bits the arm clears), in source order *)\n'
     t += 'Definition gd_read_arms : list (Z * list Z * Z) := %s.\n' % arm_list(rd)
     t += 'Definition gd_write_arms : list (Z * list Z * Z) := %s.\n' % arm_list(wr)
     write_if_changed(os.path.join(out, 'GenDuart.v'), t)
+
+    # ---- Duart::mouse_down / mouse_up translated statement by statement (straight-line field updates and one match)
+    FIELDS = ('ipcr', 'inprt', 'isr', 'ivec', 'outprt', 'acr', 'imr')
+
+    def tr_value(tok):
+        tok = tok.strip()
+        if re.fullmatch(r'0x[0-9a-fA-F_]+|\d+', tok):
+            return str(parse_int(tok))
+        if tok in du:
+            return 'gd_' + tok
+        raise GenError('mouse: value %r not understood' % tok)
+
+    def tr_stmts(body, what):
+        body = body.strip()
+        outl = []
+        for st in [x.strip() for x in body.split(';')]:
+            if not st:
+                continue
+            m = re.fullmatch(r'self\.(\w+)\s*(=|\|=|&=)\s*(!?)\s*\(?\s*([\w]+)\s*\)?', st)
+            if not m or m.group(1) not in FIELDS:
+                raise GenError('%s: statement %r not understood' % (what, st))
+            f, op, neg, val = m.group(1), m.group(2), m.group(3), tr_value(m.group(4))
+            if op == '=' and not neg:
+                e = val
+            elif op == '|=' and not neg:
+                e = 'Z.lor (%s d) %s' % (f, val)
+            elif op == '&=' and neg:
+                e = 'clr8 (%s d) %s' % (f, val)
+            else:
+                raise GenError('%s: operator in %r not understood' % (what, st))
+            outl.append('let d := with_%s d (%s) in' % (f, e))
+        return outl
+
+    def tr_mouse(fname):
+        body = find_fn(duart, fname)
+        m = re.search(r'match\s+button\s*\{', body)
+        if not m:
+            raise GenError('%s: match button not found' % fname)
+        j = match_delim(body, m.end() - 1)
+        if body[j + 1:].strip():
+            raise GenError('%s: code after the match' % fname)
+        pre = tr_stmts(body[:m.start()], fname)
+        inner = body[m.end():j]
+        arms = []
+        k = 0
+        while True:
+            while k < len(inner) and inner[k] in ' \t\r\n,':
+                k += 1
+            if k >= len(inner):
+                break
+            a = inner.find('=>', k)
+            pat = inner[k:a].strip()
+            b = inner.index('{', a)
+            e = match_delim(inner, b)
+            arms.append((pat, inner[b + 1:e]))
+            k = e + 1
+        if not arms or arms[-1][0] != '_' or arms[-1][1].strip():
+            raise GenError('%s: the last arm is not an empty wildcard' % fname)
+        t = 'Definition g_%s (d : duart) (button : Z) : duart :=\n' % fname
+        for l in pre:
+            t += '  ' + l + '\n'
+        for pat, ab in arms[:-1]:
+            if not re.fullmatch(r'\d+', pat):
+                raise GenError('%s: arm %r not understood' % (fname, pat))
+            t += '  if button =? %s then (%s d) else\n' % (pat, ' '.join(tr_stmts(ab, fname)))
+        t += '  d.\n'
+        return t
+    t = '(* GENERATED by tools/gen.py from /repo/src/duart.rs -- do not edit *)\n'
+    t += 'From Coq Require Import ZArith.\nFrom Dmd Require Import Model.Bits Model.Fifo Model.Mem Model.Duart Gen.GenDuart.\nOpen Scope Z_scope.\n\n'
+    # a failure here is confined to C20's tie theorem: the functions are then written as the identity, which the
+    # model's functions are not equal to
+    try:
+        t += tr_mouse('mouse_down') + '\n' + tr_mouse('mouse_up')
+    except GenError as ex:
+        sys.stderr.write('gen: mouse_down / mouse_up not translated: %s\n' % ex)
+        t += '(* TRANSLATION FAILED: %s *)\n' % str(ex).replace('*)', '* )')
+        t += 'Definition g_mouse_down (d : duart) (button : Z) : duart := d.\nDefinition g_mouse_up (d : duart) (button : Z) : duart := d.\n'
+    write_if_changed(os.path.join(out, 'GenMouse.v'), t)
 
     # ---- C API wrappers
     t = hdr + 'Inductive cshape := CS (locks : nat) (calls_wrapper : bool) (err_code : Z).\n'
